@@ -379,8 +379,12 @@ end
 
 def beforePushdown (t : Node) : Node := fuseFilters (fuseMaps (elimFalse (elimTrue (elimIdMaps t))))
 
+/-- no round among the next `n` rounds of `apply_all_rules` takes the defective push-down branch -/
+def optSafe : Nat → Node → Bool
+  | 0, _ => true
+  | n + 1, t => !pushUnsafe (beforePushdown t) && optSafe n (applyAll t)
+
 /-- some round of `optimize` pushes a filter into the right join input past a key column -/
-def optPushUnsafe (t : Node) : Bool :=
-  (List.range 10).any (fun j => pushUnsafe (beforePushdown (iter applyAll j t)))
+def optPushUnsafe (t : Node) : Bool := !optSafe 10 t
 
 end ILV.IR
